@@ -343,7 +343,8 @@ class ModelBase:
             if a0.ty == 'dict' and a0.kw and not a0.open_kw and a0.keyelem is None:
                 return AV(ty=name, elts=[const(k) for k in a0.kw], deps=d, fresh=True)  # the keys, in insertion order
             el = self.iter_item(interp, st, a0, None, None)
-            out = AV(ty=name, elem=el, deps=d, fresh=True, maybe_empty=a0.maybe_empty, of=a0 if a0.ty in ('ndarray', 'set', 'dict', 'range') else None)
+            out = AV(ty=name, elem=el, deps=d, fresh=True, maybe_empty=a0.maybe_empty, of=a0 if a0.ty in ('ndarray', 'set', 'dict', 'range') else None,
+                     pipeline=a0.pipeline)
             if a0.voxel and a0.selected_by is not None:
                 out = out.w(voxel=True, selected_by=a0.selected_by, maybe_empty=None)
             if a0.ty == 'ndarray':
